@@ -89,6 +89,7 @@ const (
 var (
 	errValueSize        = errors.New("invalid value size")
 	errOffsetOutOfRange = errors.New("offset is out of range")
+	errIncrOverflow     = errors.New("increment or decrement would overflow")
 	errZSetMemberSize   = errors.New("invalid zset member size")
 	errTooMuchBatchSize = errors.New("the batch size exceed the limit")
 	errDBClosed         = errors.New("the db is closed")
